@@ -26,17 +26,17 @@
          (soundness and completeness, any framework, any variable assignment);
    (5)-(7) below (Proofs/DynInv.v, DynFun.v; NOTES-agent-dynfun.md) close the gap for the dynamic COMPLETE
    and STABLE solvers with the standard (selector based) encoder:
-     (5) the clause-set invariant over histories (the missing third leg): in every state reachable with
-         the SAT program state threaded, the clauses of the session are the template groups of the live
-         arguments for their current attackers under their current selectors, plus dead clauses;
+     (5) the clause-set invariant over histories (the missing third leg; also for the preferred solver):
+         in every state reachable with the SAT program state threaded, the clauses of the session are
+         the template groups of the live arguments for their current attackers under their current
+         selectors, plus dead clauses;
      (6) THE FUNCTIONAL THEOREM: every answer that is returned - computed by a SAT call or served from
          the cache - is the one the semantics dictate for the specification store of the whole
          history, certificate included, for every valid oracle, both n_vars disciplines;
      (7) hence the status depends on the abstract framework only (not on earlier queries, cached
          results, retired variables).
-   STILL NOT PROVED: the same for the preferred solver (KPr; its session additionally holds blocking
-   clauses guarded by the MaxExt selector - they fit the "dead clause" class of (5) between calls), for
-   the assumptions-on-attacks variants and their tables.  See NOTES-dyn.md, NOTES-agent-dynfun.md. *)
+   STILL NOT PROVED: (6)-(7) for the preferred solver (KPr: (5) holds for it, the analysis of its search
+   loop on the shared session is missing), for the assumptions-on-attacks variants and their tables.  See NOTES-dyn.md, NOTES-agent-dynfun.md. *)
 From Crusta Require Import Model.Dynamic Spec.Invariance Proofs.SolverBasics Proofs.DynDefs Proofs.DynProofs Proofs.DynEnc
   Proofs.DynFunDefs Proofs.DynInv Proofs.DynFun Proofs.CompProofs Proofs.SolverWholeEx.
 
@@ -156,11 +156,14 @@ Proof. exact (DynProofs.pr_cache_sound L leqb leqb_spec). Qed.
      this value makes true - retired selectors (false, unit clause [-s]), variables of removed arguments
      (true, unit clause [v]) and their disjunction variables (false). *)
 
-(* (5) the clause-set invariant.  [atk a] is the current attacker SET of a (the list the group was last
-   encoded for); every assignment of the live variables satisfying the groups extends to the session by
-   giving the dead variables their forced values (that is how (6) uses it). *)
+(* (5) the clause-set invariant, for EVERY kind with the standard encoder (complete, stable, preferred).
+   [atk a] is the current attacker SET of a (the list the group was last encoded for); every assignment
+   of the live variables satisfying the groups extends to the session by giving the dead variables
+   their forced values (that is how (6) uses it).  For the preferred solver the blocking clauses of
+   earlier queries are dead: they contain the MaxExt selector 1 + n_vars of their query, forced true by
+   the unit clause added when that query ended (what the search does DURING a query is not covered). *)
 Theorem C08_clause_set_invariant : forall oracle thr k s ps os e,
-  vreach L leqb oracle thr k s ps os -> k = KCo \/ k = KSt -> b_enc L (s_buf L s) = XStd e ->
+  vreach L leqb oracle thr k s ps os -> k = KCo \/ k = KSt \/ k = KPr -> b_enc L (s_buf L s) = XStd e ->
   exists (dv : nat -> option bool) (atk : nat -> list nat),
     (forall x, dv x <> None -> x <= session_n_vars (sess ps)) /\
     (forall x, live_var e x -> dv x = None) /\
@@ -171,7 +174,7 @@ Theorem C08_clause_set_invariant : forall oracle thr k s ps os e,
     (forall c, In c (cls ps) ->
        dead_clause dv c \/
        exists a, has_argument_with_id L (s_af L s) a = true /\ In c (group e a (atk a))).
-Proof. exact (DynInv.clause_set_invariant L leqb leqb_spec). Qed.
+Proof. exact (DynInv.clause_set_invariant_std L leqb leqb_spec). Qed.
 
 (* (6) the functional theorem.  For the complete solver (DC) and the stable solver (DC and DS), any
    certificate flag, any history, any valid oracle (SolverBasics.valid_oracle: a Sat answer is a model
